@@ -351,99 +351,128 @@ def rule_m6(F):
     FIELD_SUMMARY["F"] = F  # guards handed out by a tuple-returning helper (`let (a, b) = lock_both(x, y)`) keep their own list
     r = RR("C15.M6", "list equality compares the lengths of both lists before comparing elements", floor=1)
     fn = "<value::list::ErasedList as std::cmp::PartialEq>::eq"
-    b = F.body(fn)
-    if b is None or not b.mir:
+    b0 = F.body(fn)
+    if b0 is None or not b0.mir:
         r.missing(fn)
         return r
-    defs = mir.Defs(b)
-    dom = mir.dominators(b)
 
-    def D(op):
-        if not mir.is_place_op(op):
-            return set()
-        l = op[1][0]
-        if 1 <= l <= b.mir["argc"]:
-            return {"arg%d" % l}
-        return {x.split(".")[0] for x in deps(b, defs, l)}
-    gates = []
-    stale = []
-    for bi, blk in enumerate(b.blocks):
-        t = blk["term"]
-        if t["k"] != "switch" or not mir.is_place_op(t["o"]):
-            continue
-        for d in defs.whole_defs(t["o"][1][0]):
-            if d[2] == "assign" and d[3]["rv"]["k"] == "bin" and d[3]["rv"]["op"] in ("Eq", "Ne", "Lt", "Le", "Gt", "Ge"):
-                da, db = D(d[3]["rv"]["a"]), D(d[3]["rv"]["b"])
-                if (da == {"arg1"} and db == {"arg2"}) or (da == {"arg2"} and db == {"arg1"}):
-                    # both lengths must be read through the guards this function holds (not through a call that locks and
-                    # unlocks on its own: the lists can change before the element loop takes its locks)
-                    under = []
-                    for o in (d[3]["rv"]["a"], d[3]["rv"]["b"]):
-                        chain = mir.value_chain(b, defs, o[1][0]) if mir.is_place_op(o) else []
-                        guard_at = None
-                        for ci, c in enumerate(chain):
-                            tc = b.blocks[c[0]]["term"]
-                            if c[2].endswith("Deref::deref") and tc["args"] and mir.is_place_op(tc["args"][0]) \
-                                    and "MutexGuard" in b.mir["locals"][tc["args"][0][1][0]]["ty"]:
-                                guard_at = ci
-                                break
-                        # what produced the guard (a lock call, a helper handing out guards) does not matter; a crate call applied
-                        # to the value AFTER it left the guard would
-                        under.append(guard_at is not None and not any(c[2].startswith("value::list::") for c in chain[:guard_at]))
-                    if all(under):
-                        gates.append(bi)
-                    else:
-                        stale.append(bi)
-    loops = mir.natural_loops(b)
-    n = 0
-    for h, nodes in loops:
-        # the element loop: it contains a call through the vtable's eq function or an element lookup
-        if not any(b.blocks[x]["term"]["k"] == "call" and ("ind" in b.blocks[x]["term"]["f"] or hir.last(mir.callee_def(b.blocks[x]["term"])) == "get") for x in nodes):
-            continue
-        # a loop that compares the elements of ONE list with themselves (two handles of the same list) has no second length
-        roots_ = set()
-        for x in nodes:
-            tx = b.blocks[x]["term"]
-            if tx["k"] == "call" and "ind" in tx["f"]:
-                for a_ in tx["args"]:
-                    roots_ |= D(a_)
-        if roots_ and len(roots_ & {"arg1", "arg2"}) < 2:
-            r.inst("element loop over one list (self comparison)", {"loop_header_bb": h, "roots": sorted(roots_)})
-            continue
-        n += 1
-        ok = any(g in dom[h] for g in gates)
-        r.inst("element loop #%d" % n, {"loop_header_bb": h, "length_gates": gates, "gated": ok})
-        if not ok:
-            r.bad(fn, "element loop not behind a length comparison", relfile(b.file), b.blocks[h]["term"].get("line", b.line),
-                  "the elements are compared without a preceding comparison of the two lengths %s: a list that is a proper prefix of the other compares equal (and `==` is no longer symmetric)"
-                  % ("read under the locks that the loop holds (the comparison found uses lengths obtained before the locks were taken: a concurrent push makes them stale and the loop indexes past the shorter list)" if stale else ""))
-    # the element loop may be an iterator adaptor with a closure (`(0..len).all(|i| eq_fn(this.get(i), other.get(i)))`): the adaptor
-    # call then plays the part of the loop header, and the lists the closure captures are the lists it walks
-    for cb_, t in mir.calls(b):
-        for a_ in t["args"]:
-            if not mir.is_place_op(a_):
+    def analyse(b, fn, la, lb, helper):
+        """the element loops of body b over the lists named la / lb (parameters of b); returns how many were found"""
+        defs = mir.Defs(b)
+        dom = mir.dominators(b)
+
+        def D(op):
+            if not mir.is_place_op(op):
+                return set()
+            l = op[1][0]
+            if 1 <= l <= b.mir["argc"]:
+                return {"arg%d" % l}
+            return {x.split(".")[0] for x in deps(b, defs, l)}
+        gates = []
+        stale = []
+        for bi, blk in enumerate(b.blocks):
+            t = blk["term"]
+            if t["k"] != "switch" or not mir.is_place_op(t["o"]):
                 continue
-            cds = [d for d in defs.whole_defs(a_[1][0]) if d[2] == "assign" and d[3]["rv"]["k"] == "agg" and d[3]["rv"].get("ak") == "closure"]
-            if not cds:
+            for d in defs.whole_defs(t["o"][1][0]):
+                if d[2] == "assign" and d[3]["rv"]["k"] == "bin" and d[3]["rv"]["op"] in ("Eq", "Ne", "Lt", "Le", "Gt", "Ge"):
+                    da, db = D(d[3]["rv"]["a"]), D(d[3]["rv"]["b"])
+                    if (da == {la} and db == {lb}) or (da == {lb} and db == {la}):
+                        # both lengths must be read through the guards this function holds (not through a call that locks and
+                        # unlocks on its own: the lists can change before the element loop takes its locks)
+                        under = []
+                        for o in (d[3]["rv"]["a"], d[3]["rv"]["b"]):
+                            chain = mir.value_chain(b, defs, o[1][0]) if mir.is_place_op(o) else []
+                            guard_at = None
+                            for ci, c in enumerate(chain):
+                                tc = b.blocks[c[0]]["term"]
+                                if c[2].endswith("Deref::deref") and tc["args"] and mir.is_place_op(tc["args"][0]) \
+                                        and "MutexGuard" in b.mir["locals"][tc["args"][0][1][0]]["ty"]:
+                                    guard_at = ci
+                                    break
+                            # what produced the guard (a lock call, a helper handing out guards) does not matter; a crate call applied
+                            # to the value AFTER it left the guard would
+                            under.append((guard_at is not None and not any(c[2].startswith("value::list::") for c in chain[:guard_at])) if not helper
+                                         else not any("ErasedList" in c[2] or hir.last(c[2]) in ("lock", "try_lock") for c in chain))
+                        if all(under):
+                            gates.append(bi)
+                        else:
+                            stale.append(bi)
+        loops = mir.natural_loops(b)
+        n = 0
+        for h, nodes in loops:
+            # the element loop: it contains a call through the vtable's eq function or an element lookup
+            if not any(b.blocks[x]["term"]["k"] == "call" and ("ind" in b.blocks[x]["term"]["f"] or hir.last(mir.callee_def(b.blocks[x]["term"])) == "get") for x in nodes):
                 continue
-            cbody = F.body(cds[0][3]["rv"].get("def") or "")
-            if cbody is None or not cbody.mir:
-                continue
-            if not any(tc["k"] == "call" and ("ind" in tc["f"] or (hir.last(mir.callee_def(tc) or "") == "get" and "value::list" in (mir.callee(tc) or ""))) for tc in (blk["term"] for blk in cbody.blocks)):
-                continue
+            # a loop that compares the elements of ONE list with themselves (two handles of the same list) has no second length
             roots_ = set()
-            for o in cds[0][3]["rv"].get("ops") or []:
-                roots_ |= D(o)
-            if len(roots_ & {"arg1", "arg2"}) < 2:
-                r.inst("element closure over one list (self comparison)", {"adaptor_bb": cb_, "roots": sorted(roots_)})
+            for x in nodes:
+                tx = b.blocks[x]["term"]
+                if tx["k"] == "call" and "ind" in tx["f"]:
+                    for a_ in tx["args"]:
+                        roots_ |= D(a_)
+            if roots_ and len(roots_ & {la, lb}) < 2:
+                r.inst("element loop over one list (self comparison)", {"loop_header_bb": h, "roots": sorted(roots_)})
                 continue
             n += 1
-            ok = any(g in dom[cb_] for g in gates)
-            r.inst("element loop #%d (closure given to %s)" % (n, hir.last(mir.callee_def(t) or "")), {"adaptor_bb": cb_, "length_gates": gates, "gated": ok})
+            ok = any(g in dom[h] for g in gates)
+            r.inst("element loop #%d" % n, {"loop_header_bb": h, "length_gates": gates, "gated": ok})
             if not ok:
-                r.bad(fn, "element loop not behind a length comparison", relfile(b.file), t.get("line", b.line),
+                r.bad(fn, "element loop not behind a length comparison", relfile(b.file), b.blocks[h]["term"].get("line", b.line),
                       "the elements are compared without a preceding comparison of the two lengths %s: a list that is a proper prefix of the other compares equal (and `==` is no longer symmetric)"
-                      % ("read under the locks that the loop holds" if stale else ""))
+                      % ("read under the locks that the loop holds (the comparison found uses lengths obtained before the locks were taken: a concurrent push makes them stale and the loop indexes past the shorter list)" if stale else ""))
+        # the element loop may be an iterator adaptor with a closure (`(0..len).all(|i| eq_fn(this.get(i), other.get(i)))`): the adaptor
+        # call then plays the part of the loop header, and the lists the closure captures are the lists it walks
+        for cb_, t in mir.calls(b):
+            for a_ in t["args"]:
+                if not mir.is_place_op(a_):
+                    continue
+                cds = [d for d in defs.whole_defs(a_[1][0]) if d[2] == "assign" and d[3]["rv"]["k"] == "agg" and d[3]["rv"].get("ak") == "closure"]
+                if not cds:
+                    continue
+                cbody = F.body(cds[0][3]["rv"].get("def") or "")
+                if cbody is None or not cbody.mir:
+                    continue
+                if not any(tc["k"] == "call" and ("ind" in tc["f"] or (hir.last(mir.callee_def(tc) or "") == "get" and "value::list" in (mir.callee(tc) or ""))) for tc in (blk["term"] for blk in cbody.blocks)):
+                    continue
+                roots_ = set()
+                for o in cds[0][3]["rv"].get("ops") or []:
+                    roots_ |= D(o)
+                if len(roots_ & {la, lb}) < 2:
+                    r.inst("element closure over one list (self comparison)", {"adaptor_bb": cb_, "roots": sorted(roots_)})
+                    continue
+                n += 1
+                ok = any(g in dom[cb_] for g in gates)
+                r.inst("element loop #%d (closure given to %s)" % (n, hir.last(mir.callee_def(t) or "")), {"adaptor_bb": cb_, "length_gates": gates, "gated": ok})
+                if not ok:
+                    r.bad(fn, "element loop not behind a length comparison", relfile(b.file), t.get("line", b.line),
+                          "the elements are compared without a preceding comparison of the two lengths %s: a list that is a proper prefix of the other compares equal (and `==` is no longer symmetric)"
+                          % ("read under the locks that the loop holds" if stale else ""))
+        return n
+
+    n = analyse(b0, fn, "arg1", "arg2", False)
+    if n == 0:
+        # the comparison proper lives in a helper on the locked lists: `this.elements_eq(&other)` - the helper is handed both lists
+        # through the guards this function holds, and the helper's own loop is behind its own comparison of both lengths
+        defs0 = mir.Defs(b0)
+        done = set()
+        for bi, t in mir.calls(b0):
+            w = F.body(mir.callee(t) or "")
+            if w is None or not w.mir or not w.path.startswith("value::list::") or w.path in done:
+                continue
+            lists = [i + 1 for i, l_ in enumerate(w.mir["locals"][1:1 + w.mir.get("argc", 0)]) if "RawList" in str(l_.get("ty") or "") and "Mutex" not in str(l_.get("ty") or "")]
+            if len(lists) != 2 or len(t["args"]) < max(lists):
+                continue
+            guarded = []
+            for i in lists:
+                o = t["args"][i - 1]
+                chain = mir.value_chain(b0, defs0, o[1][0]) if mir.is_place_op(o) else []
+                guarded.append(any(c[2].endswith("Deref::deref") and b0.blocks[c[0]]["term"]["args"] and mir.is_place_op(b0.blocks[c[0]]["term"]["args"][0])
+                                   and "MutexGuard" in b0.mir["locals"][b0.blocks[c[0]]["term"]["args"][0][1][0]]["ty"] for c in chain))
+            if not all(guarded):
+                continue
+            done.add(w.path)
+            n += analyse(w, w.path, "arg%d" % lists[0], "arg%d" % lists[1], True)
     if n == 0:
         r.missing("element comparison loop in " + fn)
     return r
@@ -588,7 +617,39 @@ def rule_m10(F):
     handles of the SAME list are equal only if every element equals itself.  No path returns `true` without going through the
     element comparison (the loop over the elements, or the slice comparison)."""
     r = RuleResult("C15.M10", "list equality never answers true without comparing the elements (no reflexivity shortcut for aliased handles)", floor=2)
-    for fn in ("<value::list::ErasedList as std::cmp::PartialEq>::eq", "<value::list::boundary::List<T> as std::cmp::PartialEq>::eq"):
+    def closure_bodies(b, defs, t):
+        for a in t["args"]:
+            if not mir.is_place_op(a):
+                continue
+            for d_ in defs.whole_defs(a[1][0]):
+                if d_[2] == "assign" and d_[3]["rv"]["k"] == "agg" and d_[3]["rv"].get("ak") == "closure":
+                    cb_ = F.body(d_[3]["rv"].get("def") or "")
+                    if cb_ is not None and cb_.mir:
+                        yield cb_
+
+    def compares(b, depth=0):
+        """does the body compare elements: through the vtable's function pointer, in a closure it hands to an adaptor, or in a helper of
+        the list module (`this.elements_eq(&other)`, `this.elem_eq(i, e)`)"""
+        if b is None or not b.mir or depth > 3:
+            return False
+        defs = mir.Defs(b)
+        for bi, t in mir.calls(b):
+            if "ind" in t["f"]:
+                return True
+            if any(compares(cb_, depth + 1) for cb_ in closure_bodies(b, defs, t)):
+                return True
+            w = mir.callee(t) or ""
+            if w.startswith("value::list::") and w != b.path and hir.last(w) not in ("get", "len", "lock") and F.has(w) and compares(F.body(w), depth + 1):
+                return True
+        return False
+
+    todo = [("<value::list::ErasedList as std::cmp::PartialEq>::eq", None), ("<value::list::boundary::List<T> as std::cmp::PartialEq>::eq", None)]
+    done = set()
+    while todo:
+        fn, via = todo.pop(0)
+        if fn in done:
+            continue
+        done.add(fn)
         b = F.body(fn)
         if b is None or not b.mir:
             r.missing(fn)
@@ -603,16 +664,16 @@ def rule_m10(F):
                 cmp_blocks.add(bi)
             elif hir.last(d) in ("eq", "ne") and any(mir.is_place_op(a) and (mir.back_calls(b, defs, a[1][0]) & raw) for a in t["args"]):
                 cmp_blocks.add(bi)
-        # the comparison may be made by a closure handed to an iterator adaptor (`(0..len).all(|i| eq_fn(..))`)
-        for bi, t in mir.calls(b):
-            for a in t["args"]:
-                if not mir.is_place_op(a):
-                    continue
-                for d_ in defs.whole_defs(a[1][0]):
-                    if d_[2] == "assign" and d_[3]["rv"]["k"] == "agg" and d_[3]["rv"].get("ak") == "closure":
-                        cb_ = F.body(d_[3]["rv"].get("def") or "")
-                        if cb_ is not None and cb_.mir and any(blk["term"]["k"] == "call" and "ind" in blk["term"]["f"] for blk in cb_.blocks):
-                            cmp_blocks.add(bi)
+            # the comparison may be made by a closure handed to an iterator adaptor (`(0..len).all(|i| eq_fn(..))`)
+            elif any(compares(cb_) for cb_ in closure_bodies(b, defs, t)):
+                cmp_blocks.add(bi)
+            else:
+                # .. or by a helper of the list module that answers for the whole comparison: it is then held to the same rule
+                w = mir.callee(t) or ""
+                if w.startswith("value::list::") and w != fn and F.has(w) and hir.last(w) not in ("get", "len", "lock") and compares(F.body(w)):
+                    cmp_blocks.add(bi)
+                    if str(F.body(w).mir["locals"][0].get("ty")) == "bool":
+                        todo.append((w, fn))
         gate = set(cmp_blocks)
         for h, nodes in loops:
             if nodes & cmp_blocks:
@@ -636,7 +697,7 @@ def rule_m10(F):
             seen.add(x)
             work.extend(mir.succs(b.blocks[x]))
         short = [(bi, ln) for bi, ln in trues if bi in seen]
-        r.inst(fn, {"element_comparison_sites": len(cmp_blocks), "constant_true_exits": len(trues), "reachable_without_comparing": len(short)})
+        r.inst(fn, {"element_comparison_sites": len(cmp_blocks), "constant_true_exits": len(trues), "reachable_without_comparing": len(short), "answers_for": via})
         for bi, ln in short:
             r.bad(fn, "true without comparing elements", relfile(b.file), ln or b.line,
                   "list equality returns true on a path that never compares the elements (two handles of the same list): the shared-vector model compares element by element, and "
